@@ -4,6 +4,7 @@
 import HSModel.Proofs.StepLemmas
 import HSModel.Proofs.RefineAll
 import HSModel.Proofs.Inert
+import HSModel.Proofs.Rejected
 namespace HS.C17
 open Abs
 variable (cfg : Config) (o : Oracle)
@@ -236,5 +237,23 @@ theorem readers_change_nothing_under_every_interleaving (calls : List Call) (hc 
       exact Prog.safe_of_allEv _ (readOnly_inert cfg o c (hc c (List.mem_of_getElem? hci)))
   exact (safe_schedule (inert_preserved w0.st w0.lk) (fun _ _ _ => trivial) _ fuel sched _ n h0).1
 
+
+/-- **A call rejected by its argument checks touches nothing, in every semantics.** `argChecks c` are
+    the pure checks the call makes first (identifiers None / empty / white space / wrong type, data of
+    an unsupported type or an empty path, sizes that are not positive integers, a checksum without
+    its algorithm or the reverse and unsupported algorithm names for `store_object`, a missing
+    ObjectMetadata). If one of them fails the program is `return error` — no primitive is issued: the
+    sequential run from ANY world under ANY fault plan returns that error and leaves directory, lock
+    lists, plan and log as they were; so does every crash prefix; and as a thread among others the call
+    returns that error at its first step and changes nothing. -/
+theorem rejected_changes_nothing_in_every_semantics (c : Call) (e : Exc) (h : firstErr (argChecks cfg c) = some e) :
+    (∀ w : World, (c.prog cfg o : Prog (Except Exc Val)).run w = (.error e, w)) ∧
+    (∀ (w : World) (n : Nat), Prog.crashAt n (c.prog cfg o : Prog (Except Exc Val)) w = (some (.error e), w)) ∧
+    (∀ (w : World) (fuel : Nat), (TState.fresh (c.prog cfg o)).step (fuel + 1) w = (.finished (.error e), w)) :=
+  rejected_changes_nothing cfg o c e h
+
+/-- the hypothesis is met by, e.g., a pid with white space, a `None` cid, a non-positive size -/
+example : firstErr (argChecks cfg (.tagObject (.str "a b".toList) (.str "c".toList))) = some .valueError := by
+  simp only [argChecks]; decide
 
 end HS.C17
